@@ -5,14 +5,16 @@
 EXTENDS Hierarchy, Json
 
 CONSTANTS NMin, NMax, MaxIn, Names, EmitCases, Edi, EmitMod,
+          Filter,  \* BOOLEAN: the target carries the filter "first unit has an odd index" (leaf targets only)
           Shapes   \* set of record shapes non-group declarations may have: subset of {"name", "rows2", "hf"}
 
 VARIABLES H, in, st
 vars == <<H, in, st>>
 
-Hier(n) == { h \in [n : {n}, edi : {Edi}, par : [1..n -> 0..(n - 1)], grp : [1..n -> BOOLEAN], nm : [1..n -> Names], mk : [1..n -> Shapes],
+Hier(n) == { h \in [n : {n}, edi : {Edi}, flt : {Filter}, par : [1..n -> 0..(n - 1)], grp : [1..n -> BOOLEAN], nm : [1..n -> Names], mk : [1..n -> Shapes],
                     mn : [1..n -> 0..2], mx : [1..n -> {1, 2, INF}], tgt : 1..n] :
              /\ WellFormed(h)
+             /\ (Filter => ~h.grp[h.tgt])                                                            \* (the filter is defined for leaf targets)
              /\ \A i \in 1..n : h.grp[i] => (h.nm[i] = (CHOOSE x \in Names : TRUE) /\ h.mk[i] = "name")   \* irrelevant for a group
              /\ \A i \in 1..n : h.mk[i] = "rows2" => h.nm[i] = (CHOOSE x \in Names : TRUE) }            \* a wildcard has no name
 
